@@ -268,6 +268,37 @@ pub mod datalog2 {
     }
 }
 
+pub mod builder_expression {
+    // token/builder/expression.rs: the builder-level Display of an expression (used by Authorizer::dump_code and by
+    // every `to_string()` on dumped rules / checks): it must not assume that the operation sequence is well formed
+    use vstd::prelude::*;
+    use crate::datalog2::SymbolTable;
+    #[verifier::external_body] pub struct Op { _p: u8 }
+    pub struct Expression { pub ops: Vec<Op> }
+    pub mod fmt {
+        use vstd::prelude::*;
+        #[verifier::external_body] pub struct Formatter<'a> { _p: &'a u8 }
+        #[verifier::external_body] pub struct Error { _p: u8 }
+        pub type Result = core::result::Result<(), Error>;
+    }
+    // ASSUMED: the default table; builder -> Datalog conversion returns SOME operation sequence (nothing is known
+    // about its shape: the builder type is a public struct and dumped expressions come from token contents)
+    #[verifier::external_body] pub fn default_symbol_table() -> SymbolTable { unimplemented!() }
+    impl Expression {
+        #[verifier::external_body] pub fn convert(&self, symbols: &mut SymbolTable) -> crate::datalog::Expression { unimplemented!() }
+    }
+    // `write!(f, ..)`
+    #[verifier::external_body] pub fn verif_write(f: &mut fmt::Formatter<'_>, s: String) -> fmt::Result { unimplemented!() }
+    #[verifier::external_body] pub fn verif_write_invalid(f: &mut fmt::Formatter<'_>, ops: &Vec<crate::datalog::Op>) -> fmt::Result { unimplemented!() }
+    impl Expression {
+    //@extract biscuit-auth/src/token/builder/expression.rs :: impl fmt::Display for Expression :: fn fmt
+    //@ id token::builder::expression::Expression::Display::fmt
+    //@ sub write!\(f, "\{\}", s\) => verif_write(f, s)
+    //@ sub_unless_gone invalid expression :: write!\(f, "<invalid expression: \{:\?\}>", expr\.ops\) => verif_write_invalid(f, &expr.ops)
+    //@end
+    }
+}
+
 pub mod espec {
     use vstd::prelude::*;
     use crate::datalog::*;
@@ -326,5 +357,6 @@ pub mod espec {
 //@canary shadowing-accepted :: datalog::expression::Expression::evaluate :: return Err(error::Expression::ShadowedVariable); ==>> ;
 //@canary-requires datalog::expression::Binary::evaluate_with_closure
 //@canary print-final-stack :: datalog::expression::Expression::print :: if stack.len() == 1 {\n            Some(stack.remove(0)) ==>> if stack.len() <= 1 {\n            Some(stack.remove(0))
+//@canary display-unwrap :: token::builder::expression::Expression::Display::fmt :: match expr.print(&syms) { ==>> match Some(expr.print(&syms).unwrap()) {
 } // verus!
 fn main() {}
